@@ -43,6 +43,9 @@ pub enum GateKind {
     Complex,
     /// phase 1: s · (b0 − c·a0) with c the challenge usable after the first phase
     Chal,
+    /// s · (a0(next) − a1): when listed first, the first advice query of the constraint system
+    /// is a rotated one (the first opening point is then not `x`)
+    NextFirst,
 }
 
 #[derive(Clone, Copy, Debug, PartialEq, Eq, Hash)]
@@ -296,6 +299,15 @@ impl Circuit<F> for FamCircuit {
                         Constraints::without_selector(vec![q * (a0 * a1 - a2)])
                     });
                 }
+                GateKind::NextFirst => {
+                    let s = meta.selector();
+                    gate_sel.push(s);
+                    meta.create_gate(name, |m| {
+                        let a0 = m.query_advice(adv0[0], Rotation::next());
+                        let a1 = m.query_advice(adv0[1], Rotation::cur());
+                        Constraints::with_selector(s, vec![a0 - a1])
+                    });
+                }
                 GateKind::Chal => {
                     assert!(params.n_adv1 > 0);
                     let s = meta.selector();
@@ -420,6 +432,12 @@ impl Circuit<F> for FamCircuit {
                                 y = r2;
                                 z = r1 - r2;
                             }
+                            GateKind::NextFirst => {
+                                // a0 sits on the next row (offset 2), a1 on the current row
+                                x = r1;
+                                y = r1;
+                                z = r2;
+                            }
                         }
                     } else {
                         is_lookup = true;
@@ -447,7 +465,8 @@ impl Circuit<F> for FamCircuit {
                     let _ = is_lookup;
                     region.assign_fixed(|| "f0", cfg.f0, 1, || Value::known(fconst))?;
                     let linrot = slot < p.gates.len() && p.gates[slot] == GateKind::LinRot;
-                    let a0 = asg.put(&mut region, cfg.adv0[0], 1, val(x))?;
+                    let nextfirst = slot < p.gates.len() && p.gates[slot] == GateKind::NextFirst;
+                    let a0 = asg.put(&mut region, cfg.adv0[0], if nextfirst { 2 } else { 1 }, val(x))?;
                     let a1 = asg.put(&mut region, cfg.adv0[1], if linrot { 2 } else { 1 }, val(y))?;
                     let a2 = asg.put(&mut region, cfg.adv0[2], if linrot { 0 } else { 1 }, val(z))?;
                     // extra phase-0 columns carry independent values
@@ -516,6 +535,7 @@ pub fn sample_params(rng: &mut impl Rng) -> FamParams {
         GateKind::Additive,
         GateKind::Complex,
         GateKind::Chal,
+        GateKind::NextFirst,
     ];
     let all_lookups = [LookupKind::Range, LookupKind::Pair, LookupKind::AnyInstance];
     let n_gates = rng.gen_range(1..=4);
